@@ -33,7 +33,7 @@ def API(br):
 class _Schema(Contract):
     modules = MODS
     probe = True
-    cprops = ("C09", "C01")
+    cprops = ("C09",)
     sprops = eprops = ()
     vprops = ("C09",)
     tprops = ("C09",)
